@@ -1419,9 +1419,11 @@ impl<'l> CelCompiler<'l> {
         let bc = member_prime_node.into_unresolved_bytecode().resolve();
         let r = i.run_raw(&bc, true);
 
+        // A value computed while some name was unresolved (a variable, or a function or macro
+        // only known at run time) says nothing about the run-time value: keep the code.
         match r {
-            Ok(v) => CompiledProg::with_const(v),
-            Err(_) => CompiledProg::with_bytecode(bc),
+            Ok(v) if !i.saw_unresolved() => CompiledProg::with_const(v),
+            _ => CompiledProg::with_bytecode(bc),
         }
     }
 }
